@@ -2,6 +2,7 @@
 package c17
 
 import (
+	"bufio"
 	"bytes"
 	stdjson "encoding/json"
 	"fmt"
@@ -121,6 +122,18 @@ func runCase(c Case) (st stats, err error) {
 	r3 := oj.NewJsonPlusReader(seg(plain))
 	if o3, e := io.ReadAll(r3); e != nil || string(o3) != plain {
 		return st, fmt.Errorf("comment-free text read while another reader is half-way is altered: %q became %q (err %v)", clip(plain), clip(string(o3)), e)
+	}
+	if e2 == nil && len(decorated)%3 == 0 {
+		// the rest is drained with io.Copy (which hands the reader over to a WriterTo, if it is one)
+		var rest bytes.Buffer
+		var src io.Reader = r2
+		if len(decorated)%2 == 0 {
+			src = bufio.NewReaderSize(r2, 16)
+		}
+		if _, e := io.Copy(&rest, src); e != nil {
+			return st, fmt.Errorf("io.Copy of the rest of the decorated text after a first Read of %d bytes: %v", n2, e)
+		}
+		o2, e2 = append(o2, rest.Bytes()...), io.EOF
 	}
 	for i := 0; e2 == nil; i++ {
 		n2, e2 = r2.Read(small[:1+i%3])
@@ -370,6 +383,52 @@ func TestLongStrings(t *testing.T) {
 						err = fmt.Errorf("string of %d x %q at alignment %d: %v", total/len(u), u, align, err)
 						p := ev.Fail(prop, "decorated-documents", c, err)
 						t.Fatalf("%v (replay %s)", clip(err.Error()), p)
+					}
+				}
+			}
+		}
+	}
+}
+
+// TestLongComments: comments longer than any buffer of the reader, at the start, in the middle and at the very end of the input.
+func TestLongComments(t *testing.T) {
+	rec := ev.New(prop, "long-comments", "deterministic: one comment of {65530, 65536, 70000, 140001} bytes ({line comment with newline, line comment ending the input without newline, block comment} x body of {x, slash, star-space, quote}) "+
+		"placed before the value, inside it, or after it, around a scalar / an array / an object, read whole, in 4 KiB pieces, with an early EOF, through a bufio.Reader; oracle as in decorated-documents; all non-trivial")
+	rec.Exhaustive()
+	vals := []jsonref.V{{K: "num", Raw: "123"}, {K: "arr", Elem: []jsonref.V{{K: "num", Raw: "1"}, {K: "str", Str: "a//b"}}}, {K: "obj", Keys: []string{"k"}, Elem: []jsonref.V{{K: "str", Str: "v"}}}}
+	i := 0
+	for vi, v := range vals {
+		for _, n := range []int{65530, 65536, 70000, 140001} {
+			for _, unit := range []string{"x", "/", "* ", "\""} {
+				for kind := 0; kind < 3; kind++ {
+					for pos := 0; pos < 3; pos++ {
+						i++
+						if i%ev.Shards() != ev.Shard() {
+							continue
+						}
+						c := Case{Val: v, Mode: i % 2}
+						nt := len(jsonref.Tokens(c.Val, c.Mode))
+						c.Plain, c.Gaps = make([]string, nt+1), make([]string, nt+1)
+						at := []int{0, nt / 2, nt}[pos]
+						body := strings.Repeat(unit, n/len(unit))
+						switch kind {
+						case 0:
+							c.Gaps[at] = " //" + body + "\n"
+						case 1:
+							at = nt // only the last gap can end the input
+							c.Gaps[at] = " //" + body
+						case 2:
+							c.Gaps[at] = "/*" + body + " */"
+						}
+						c.SegKind, c.Seg = []int{0, 2, 4, 5}[i%4], []int{4096, 4095, 65536, 7}
+						err := ev.Try(func() error { _, e := runCase(c); return e })
+						info := map[string]any{"value": vi, "comment_bytes": len(body), "unit": unit, "comment": []string{"line", "line-at-eof", "block"}[kind], "gap": at, "seg_kind": c.SegKind}
+						rec.Case(true, ev.Hash(vi, n, unit, kind, pos), nil, func() any { return info })
+						if err != nil {
+							err = fmt.Errorf("%v: %v", info, err)
+							p := ev.Fail(prop, "decorated-documents", c, err)
+							t.Fatalf("%v (replay %s)", clip(err.Error()), p)
+						}
 					}
 				}
 			}
